@@ -7,25 +7,27 @@ import MptModel.Lemmas.ParseValue
 namespace Mpt.Parse
 open Mpt.Render
 
-/-- default configuration: format `{*} = ` with `#` comments, all name flags -/
-abbrev cfgB : Cfg := {}
+/-- default format `{*} = ` with `#` comments, name restriction words `fs` (sections) and `fo` (options) -/
+abbrev cfgB (fs fo : Nat) : Cfg := { sect := fs, opt := fo }
 
-theorem hashOnly_B : HashOnly cfgB.fmt := rfl
-theorem dataFmt_B : DataFmt cfgB.fmt := ⟨rfl, rfl, rfl⟩
+variable {fs fo : Nat}
+
+theorem hashOnly_B : HashOnly (cfgB fs fo).fmt := rfl
+theorem dataFmt_B : DataFmt (cfgB fs fo).fmt := ⟨rfl, rfl, rfl⟩
 
 /-! ### loop body of `mpt_parse_format_pre` on the characters of a line -/
 
 theorem preBody_name (e : List (List UInt8)) (l : List UInt8) (k : Bool) (fi : UInt8) (v cur ln : Nat) (c : UInt8)
     (hc : nameChar c = true) :
-    preBody cfgB (Stt e l k fi v cur ln) c = .more (Stt e l (k || !l.isEmpty) fi l.length Flag.name ln) := by
+    preBody (cfgB fs fo) (Stt e l k fi v cur ln) c = .more (Stt e l (k || !l.isEmpty) fi l.length Flag.name ln) := by
   obtain ⟨h0, h10, h35, _, h61, h123, h125, _, _, _, _, _, hsp⟩ := nameChar_facts c hc
-  have hcom : cfgB.fmt.isComment c = false := by rw [hashOnly_B.isComment]; simp [h35]
+  have hcom : (cfgB fs fo).fmt.isComment c = false := by rw [(hashOnly_B (fs := fs) (fo := fo)).isComment]; simp [h35]
   unfold preBody
   simp [h0, h61, h123, h125, hsp, hcom]
 
 theorem preBody_blank (e : List (List UInt8)) (l : List UInt8) (k : Bool) (fi : UInt8) (v cur ln : Nat) (b : UInt8)
     (hb : isBlank b = true) :
-    preBody cfgB (Stt e l k fi v cur ln) b = .more (Stt e l k fi v Flag.name ln) := by
+    preBody (cfgB fs fo) (Stt e l k fi v cur ln) b = .more (Stt e l k fi v Flag.name ln) := by
   have hb' : b = 32 ∨ b = 9 ∨ b = 11 ∨ b = 12 ∨ b = 13 := by simpa [isBlank, or_assoc] using hb
   have h0 : b ≠ 0 := by rcases hb' with h | h | h | h | h <;> subst h <;> decide
   have h10 : b ≠ 10 := by rcases hb' with h | h | h | h | h <;> subst h <;> decide
@@ -33,29 +35,29 @@ theorem preBody_blank (e : List (List UInt8)) (l : List UInt8) (k : Bool) (fi : 
   have h123 : b ≠ 123 := by rcases hb' with h | h | h | h | h <;> subst h <;> decide
   have h125 : b ≠ 125 := by rcases hb' with h | h | h | h | h <;> subst h <;> decide
   have hsp : isspace b = true := by rcases hb' with h | h | h | h | h <;> subst h <;> decide
-  have hcom : cfgB.fmt.isComment b = false := by
-    rw [hashOnly_B.isComment]; rcases hb' with h | h | h | h | h <;> subst h <;> decide
+  have hcom : (cfgB fs fo).fmt.isComment b = false := by
+    rw [(hashOnly_B (fs := fs) (fo := fo)).isComment]; rcases hb' with h | h | h | h | h <;> subst h <;> decide
   unfold preBody
   simp [h0, h10, h61, h123, h125, hsp, hcom]
 
 theorem preBody_assign (e : List (List UInt8)) (l : List UInt8) (k : Bool) (fi : UInt8) (v cur ln : Nat) :
-    preBody cfgB (Stt e l k fi v cur ln) 61 = .done (.data (Stt e l k fi v (Flag.option ||| Flag.name) ln)) := by
+    preBody (cfgB fs fo) (Stt e l k fi v cur ln) 61 = .done (.data (Stt e l k fi v (Flag.option ||| Flag.name) ln)) := by
   simp [preBody]
 
 theorem preBody_open (e : List (List UInt8)) (l : List UInt8) (k : Bool) (fi : UInt8) (v cur ln : Nat) :
-    preBody cfgB (Stt e l k fi v cur ln) 123 = .done (.brk (Stt e l k fi v cur ln) (some 123)) := by
+    preBody (cfgB fs fo) (Stt e l k fi v cur ln) 123 = .done (.brk (Stt e l k fi v cur ln) (some 123)) := by
   simp [preBody]
 
 theorem preBody_close (e : List (List UInt8)) (l : List UInt8) (k : Bool) (fi : UInt8) (v cur ln : Nat) :
-    preBody cfgB (Stt e l k fi v cur ln) 125 = .done (.ret 2 (Stt e l k fi v Flag.sectEnd ln)) := by
+    preBody (cfgB fs fo) (Stt e l k fi v cur ln) 125 = .done (.ret 2 (Stt e l k fi v Flag.sectEnd ln)) := by
   simp [preBody, Flag.sectEnd]
 
 /-- the loop of `mpt_parse_format_pre`: read a character, save it, look at it -/
-abbrev preStep : St → UInt8 → Step St PreExit := fun s c => preBody cfgB (s.save c) c
+abbrev preStep (fs fo : Nat) : St → UInt8 → Step St PreExit := fun s c => preBody (cfgB fs fo) (s.save c) c
 
 theorem run_name (e : List (List UInt8)) (fi : UInt8) (ln : Nat) :
     ∀ (w l : List UInt8), w.all nameChar = true →
-      runSteps preStep (Stt e l true fi l.length Flag.name ln) w
+      runSteps (preStep fs fo) (Stt e l true fi l.length Flag.name ln) w
         = some (Stt e (l ++ w) true fi (l ++ w).length Flag.name ln) := by
   intro w
   induction w with
@@ -73,7 +75,7 @@ theorem run_name (e : List (List UInt8)) (fi : UInt8) (ln : Nat) :
 
 theorem run_blanks (e : List (List UInt8)) (fi : UInt8) (v ln : Nat) :
     ∀ (bs l : List UInt8), bs.all isBlank = true →
-      runSteps preStep (Stt e l true fi v Flag.name ln) bs = some (Stt e (l ++ bs) true fi v Flag.name ln) := by
+      runSteps (preStep fs fo) (Stt e l true fi v Flag.name ln) bs = some (Stt e (l ++ bs) true fi v Flag.name ln) := by
   intro bs
   induction bs with
   | nil => intro l _; simp [runSteps]
@@ -92,11 +94,11 @@ theorem run_blanks (e : List (List UInt8)) (fi : UInt8) (v ln : Nat) :
 /-- a name followed by blanks, read from the first character on -/
 theorem run_name_blanks (e : List (List UInt8)) (fi : UInt8) (ln : Nat) (c0 : UInt8) (n' pre : List UInt8)
     (hn : n'.all nameChar = true) (hpre : pre.all isBlank = true) :
-    runSteps preStep (Stt e [c0] true fi 1 Flag.name ln) (n' ++ pre)
+    runSteps (preStep fs fo) (Stt e [c0] true fi 1 Flag.name ln) (n' ++ pre)
       = some (Stt e (c0 :: n' ++ pre) true fi (n'.length + 1) Flag.name ln) := by
-  have h1 := run_name e fi ln n' [c0] hn
-  have h2 := run_blanks e fi ([c0] ++ n').length ln pre ([c0] ++ n') hpre
-  have := runSteps_append preStep _ _ _ n' pre h1 h2
+  have h1 := run_name (fs := fs) (fo := fo) e fi ln n' [c0] hn
+  have h2 := run_blanks (fs := fs) (fo := fo) e fi ([c0] ++ n').length ln pre ([c0] ++ n') hpre
+  have := runSteps_append (preStep fs fo) _ _ _ n' pre h1 h2
   simpa [Nat.add_comm] using this
 
 /-! ### the start of every line: insignificant text, then the first character of a name -/
@@ -107,18 +109,18 @@ theorem pre_first (e : List (List UInt8)) (s : St) (src : Src) (junk : List UInt
     (hj : visSkip false junk = some false) (hc : nameChar c0 = true)
     (hsrc : src.rest = junk ++ c0 :: rest) :
     ∃ ln src1, src1.rest = rest ∧
-      parseFormatPre cfgB s src =
-        (match preBody cfgB (Stt e [c0] false s.path.first 0 Flag.name ln) c0 with
-         | .done x => preExit cfgB x src1
-         | .more s3 => preExit cfgB (scan preStep (fun s => PreExit.brk s none) src1 s3).1
-                          (scan preStep (fun s => PreExit.brk s none) src1 s3).2) := by
+      parseFormatPre (cfgB fs fo) s src =
+        (match preBody (cfgB fs fo) (Stt e [c0] false s.path.first 0 Flag.name ln) c0 with
+         | .done x => preExit (cfgB fs fo) x src1
+         | .more s3 => preExit (cfgB fs fo) (scan (preStep fs fo) (fun s => PreExit.brk s none) src1 s3).1
+                          (scan (preStep fs fo) (fun s => PreExit.brk s none) src1 s3).2) := by
   obtain ⟨h0, _, h35, _, _, h123, _, _, _, _, _, _, hsp⟩ := nameChar_facts c0 hc
   have hvis : visible c0 = true := by simp [visible, h0, hsp, h35]
-  obtain ⟨ln, src1, hnv, hr⟩ := nextvis_skip hashOnly_B junk c0 rest s src hj hvis hsrc
+  obtain ⟨ln, src1, hnv, hr⟩ := nextvis_skip (hashOnly_B (fs := fs) (fo := fo)) junk c0 rest s src hj hvis hsrc
   refine ⟨ln, src1, hr, ?_⟩
   unfold parseFormatPre
   simp only [hnv]
-  have hss : (c0 == cfgB.fmt.sstart) = false := by simp [h123]
+  have hss : (c0 == (cfgB fs fo).fmt.sstart) = false := by simp [h123]
   simp only [hss, Bool.false_eq_true, ↓reduceIte]
   rw [addchar_clean hclean c0]
   simp only [hv]
@@ -127,10 +129,10 @@ theorem pre_first (e : List (List UInt8)) (s : St) (src : Src) (junk : List UInt
 /-! ### `name = value` -/
 
 /-- the name is complete (`=` read): commit it and read the value -/
-theorem nameThenData_line (cfg : Cfg) (hopt : cfg.opt = 0xff) (hdf : DataFmt cfg.fmt)
+theorem nameThenData_line (cfg : Cfg) (hdf : DataFmt cfg.fmt)
     (e : List (List UInt8)) (n pre : List UInt8) (fi : UInt8) (ln : Nat) (eAdd : Err)
     (post tr rest : List UInt8) (ov : Option (List UInt8)) (src : Src)
-    (hn : nameOk n = true)
+    (hn : nameOk n = true) (hnc : ncheck n cfg.opt = none)
     (hpost : post.all isBlank = true) (htr : trailOk tr = true)
     (hval : match ov with | some x => x.isEmpty = true ∨ valueOk x = true | none => True)
     (hsrc : src.rest = post ++ valueText ov ++ tr ++ 10 :: rest) :
@@ -153,8 +155,7 @@ theorem nameThenData_line (cfg : Cfg) (hopt : cfg.opt = 0xff) (hdf : DataFmt cfg
           (if e.isEmpty then UInt8.ofNat n.length else fi) n.length (Flag.option ||| Flag.name) ln) := by
     unfold St.commit
     rw [hname]
-    have : ncheck n cfg.opt = none := by rw [hopt]; exact ncheck_all n
-    simp only [this, hadd]
+    simp only [hnc, hadd]
   obtain ⟨s', src', hpd, hgood, hrest⟩ := parseData_value hdf cfg rfl (e ++ [n])
     (if e.isEmpty then UInt8.ofNat n.length else fi) (Flag.option ||| Flag.name) ln post tr rest ov src hpost htr
     hval hsrc
@@ -180,11 +181,11 @@ theorem nameThenData_line (cfg : Cfg) (hopt : cfg.opt = 0xff) (hdf : DataFmt cfg
 theorem pre_option_line (e : List (List UInt8)) (s : St) (src : Src) (junk n pre post tr rest : List UInt8)
     (ov : Option (List UInt8))
     (hclean : Clean e s.path) (hv : s.valid = 0)
-    (hj : visSkip false junk = some false) (hn : nameOk n = true)
+    (hj : visSkip false junk = some false) (hn : nameOk n = true) (hnc : ncheck n fo = none)
     (hpre : pre.all isBlank = true) (hpost : post.all isBlank = true) (htr : trailOk tr = true)
     (hval : match ov with | some x => x.isEmpty = true ∨ valueOk x = true | none => True)
     (hsrc : src.rest = junk ++ n ++ pre ++ 61 :: (post ++ valueText ov ++ tr ++ 10 :: rest)) :
-    ∃ s' src', parseFormatPre cfgB s src = ((if (valueOf ov).isEmpty then 3 else 7 : Int), s', src')
+    ∃ s' src', parseFormatPre (cfgB fs fo) s src = ((if (valueOf ov).isEmpty then 3 else 7 : Int), s', src')
       ∧ (∃ l k fi' ln', s' = Stt (e ++ [n]) l k fi' (valueOf ov).length (Flag.option ||| Flag.name) ln'
           ∧ l.take (valueOf ov).length = valueOf ov)
       ∧ src'.rest = rest := by
@@ -199,16 +200,16 @@ theorem pre_option_line (e : List (List UInt8)) (s : St) (src : Src) (junk n pre
       hclean hv hj hn'.1.2.1 (by simp [hsrc, List.append_assoc])
     rw [hpf, preBody_name _ _ _ _ _ _ _ _ hn'.1.2.1]
     simp only [List.isEmpty_cons, Bool.not_false, Bool.or_true, List.length_cons, List.length_nil, Nat.zero_add]
-    have hrun := run_name_blanks e s.path.first ln c0 n' pre hn'.1.2.2 hpre
+    have hrun := run_name_blanks (fs := fs) (fo := fo) e s.path.first ln c0 n' pre hn'.1.2.2 hpre
     -- the `=` ends the name
     have hsave : (Stt e (c0 :: n' ++ pre) true s.path.first (n'.length + 1) Flag.name ln).save 61
         = Stt e (c0 :: n' ++ pre ++ [61]) true s.path.first (n'.length + 1) Flag.name ln := by
       rw [save_stt _ _ _ _ _ _ _ _ (by decide)]; simp
-    obtain ⟨src2, hscan, hr2⟩ := scan_prefix_done preStep (fun s => PreExit.brk s none) (n' ++ pre) 61
+    obtain ⟨src2, hscan, hr2⟩ := scan_prefix_done (preStep fs fo) (fun s => PreExit.brk s none) (n' ++ pre) 61
       (post ++ valueText ov ++ tr ++ 10 :: rest) src1 _ _ _ (by simp [hr1, List.append_assoc]) hrun
       (by simp only [preStep, hsave]; exact preBody_assign _ _ _ _ _ _ _)
     simp only [hscan, preExit]
-    have := nameThenData_line cfgB rfl dataFmt_B e (c0 :: n') pre s.path.first ln .BadOperation post tr rest ov src2 hn hpost htr hval hr2
+    have := nameThenData_line (cfgB fs fo) (dataFmt_B (fs := fs) (fo := fo)) e (c0 :: n') pre s.path.first ln .BadOperation post tr rest ov src2 hn hnc hpost htr hval hr2
     simpa using this
 
 
@@ -217,9 +218,10 @@ theorem pre_option_line (e : List (List UInt8)) (s : St) (src : Src) (junk n pre
 /-- **a section start line**: `junk name pre {` (the rest of the line is left in the source) -/
 theorem pre_open_line (e : List (List UInt8)) (s : St) (src : Src) (junk n pre rest : List UInt8)
     (hclean : Clean e s.path) (hv : s.valid = 0)
-    (hj : visSkip false junk = some false) (hn : nameOk n = true) (hpre : pre.all isBlank = true)
+    (hj : visSkip false junk = some false) (hn : nameOk n = true) (hnc : ncheck n fs = none)
+    (hpre : pre.all isBlank = true)
     (hsrc : src.rest = junk ++ n ++ pre ++ 123 :: rest) :
-    ∃ s' src', parseFormatPre cfgB s src = (1, s', src')
+    ∃ s' src', parseFormatPre (cfgB fs fo) s src = (1, s', src')
       ∧ (∃ l fi' v' ln', s' = Stt (e ++ [n]) l false fi' v' (Flag.section_ ||| Flag.name) ln')
       ∧ src'.rest = rest := by
   have hn' := hn
@@ -233,11 +235,11 @@ theorem pre_open_line (e : List (List UInt8)) (s : St) (src : Src) (junk n pre r
       hclean hv hj hn'.1.2.1 (by simp [hsrc, List.append_assoc])
     rw [hpf, preBody_name _ _ _ _ _ _ _ _ hn'.1.2.1]
     simp only [List.isEmpty_cons, Bool.not_false, Bool.or_true, List.length_cons, List.length_nil, Nat.zero_add]
-    have hrun := run_name_blanks e s.path.first ln c0 n' pre hn'.1.2.2 hpre
+    have hrun := run_name_blanks (fs := fs) (fo := fo) e s.path.first ln c0 n' pre hn'.1.2.2 hpre
     have hsave : (Stt e (c0 :: n' ++ pre) true s.path.first (n'.length + 1) Flag.name ln).save 123
         = Stt e (c0 :: n' ++ pre ++ [123]) true s.path.first (n'.length + 1) Flag.name ln := by
       rw [save_stt _ _ _ _ _ _ _ _ (by decide)]; simp
-    obtain ⟨src2, hscan, hr2⟩ := scan_prefix_done preStep (fun s => PreExit.brk s none) (n' ++ pre) 123
+    obtain ⟨src2, hscan, hr2⟩ := scan_prefix_done (preStep fs fo) (fun s => PreExit.brk s none) (n' ++ pre) 123
       rest src1 _ _ _ (by simp [hr1, List.append_assoc]) hrun
       (by simp only [preStep, hsave]; exact preBody_open _ _ _ _ _ _ _)
     simp only [hscan, preExit]
@@ -253,14 +255,14 @@ theorem pre_open_line (e : List (List UInt8)) (s : St) (src : Src) (junk n pre r
       (if e.isEmpty = true then UInt8.ofNat (n'.length + 1) else s.path.first) (n'.length + 1)
       (Flag.section_ ||| Flag.name) ln, src2, ?_, ⟨_, _, _, _, rfl⟩, hr2⟩
     unfold preFinish
-    have h1 : (cfgB.fmt.sstart != 0 && (some (123 : UInt8) == some cfgB.fmt.sstart)) = true := by decide
+    have h1 : ((cfgB fs fo).fmt.sstart != 0 && (some (123 : UInt8) == some (cfgB fs fo).fmt.sstart)) = true := rfl
     simp only [h1, ↓reduceIte]
     unfold St.commit
     have hname : (Stt e (c0 :: n' ++ pre ++ [123]) true s.path.first (n'.length + 1)
         (Flag.section_ ||| Flag.name) ln).name = c0 :: n' := by
       simp only [St.name, head_pth, htake]
     simp only [hname]
-    have : ncheck (c0 :: n') cfgB.sect = none := ncheck_all _
+    have : ncheck (c0 :: n') (cfgB fs fo).sect = none := hnc
     simp only [this, hadd]
     rfl
 
@@ -270,24 +272,24 @@ theorem pre_open_line (e : List (List UInt8)) (s : St) (src : Src) (junk n pre r
 theorem pre_close_line (e : List (List UInt8)) (s : St) (src : Src) (junk rest : List UInt8)
     (hclean : Clean e s.path) (hv : s.valid = 0)
     (hj : visSkip false junk = some false) (hsrc : src.rest = junk ++ 125 :: rest) :
-    ∃ ln src', parseFormatPre cfgB s src = (2, Stt e [125] false s.path.first 0 Flag.sectEnd ln, src')
+    ∃ ln src', parseFormatPre (cfgB fs fo) s src = (2, Stt e [125] false s.path.first 0 Flag.sectEnd ln, src')
       ∧ src'.rest = rest := by
-  obtain ⟨ln, src1, hnv, hr⟩ := nextvis_skip hashOnly_B junk 125 rest s src hj (by decide) hsrc
+  obtain ⟨ln, src1, hnv, hr⟩ := nextvis_skip (hashOnly_B (fs := fs) (fo := fo)) junk 125 rest s src hj (by decide) hsrc
   refine ⟨ln, src1, ?_, hr⟩
   unfold parseFormatPre
   simp only [hnv]
-  have hss : ((125 : UInt8) == cfgB.fmt.sstart) = false := by decide
+  have hss : ((125 : UInt8) == (cfgB fs fo).fmt.sstart) = false := rfl
   simp only [hss, Bool.false_eq_true, ↓reduceIte]
   rw [addchar_clean hclean 125]
   simp only [hv]
-  have := preBody_close e [125] false s.path.first 0 Flag.name ln
+  have := preBody_close (fs := fs) (fo := fo) e [125] false s.path.first 0 Flag.name ln
   simp only [this, preExit]
 
 /-- **end of the text** outside of sections -/
 theorem pre_eof (s : St) (src : Src) (junk : List UInt8) (b : Bool)
     (hclean : Clean [] s.path) (hj : visSkip false junk = some b) (hsrc : src.rest = junk) :
-    ∃ s' src', parseFormatPre cfgB s src = (0, s', src') := by
-  obtain ⟨ln, src1, hnv, _⟩ := nextvis_end hashOnly_B junk b s src hj hsrc
+    ∃ s' src', parseFormatPre (cfgB fs fo) s src = (0, s', src') := by
+  obtain ⟨ln, src1, hnv, _⟩ := nextvis_end (hashOnly_B (fs := fs) (fo := fo)) junk b s src hj hsrc
   refine ⟨{ s with line := ln }, src1, ?_⟩
   unfold parseFormatPre
   simp only [hnv]
